@@ -91,9 +91,10 @@ NORET = object()
 
 
 class State(object):
-    __slots__ = ("env", "ret", "conds", "flow", "facts")
+    __slots__ = ("env", "ret", "conds", "flow", "facts", "cond_nf")
 
-    def __init__(self, env, ret=NORET, conds=(), flow=None, facts=None):
+    def __init__(self, env, ret=NORET, conds=(), flow=None, facts=None, cond_nf=()):
+        self.cond_nf = tuple(cond_nf)   # ((evaluated test, truth), ...) for symbolic branch decisions
         self.env = env
         self.ret = ret
         self.conds = tuple(conds)
@@ -101,7 +102,8 @@ class State(object):
         self.facts = dict(facts or {})      # key of a decided symbolic condition -> bool
 
     def fork(self, cond=None):
-        return State(dict(self.env), self.ret, self.conds + ((cond,) if cond else ()), self.flow, self.facts)
+        return State(dict(self.env), self.ret, self.conds + ((cond,) if cond else ()), self.flow, self.facts,
+                     self.cond_nf)
 
     @property
     def live(self):
@@ -277,6 +279,7 @@ class Interp(object):
 
     def exec_stmt(self, st, s, ctx):
         ctx.facts_now = s.facts
+        ctx.state_now = s
         m = getattr(self, "st_" + type(st).__name__, None)
         if m is None:
             self.notes.append("%s: statement %s skipped" % (ctx.finfo.fq, type(st).__name__))
@@ -414,6 +417,8 @@ class Interp(object):
         if k is not None:
             a.facts[k] = True
             b.facts[k] = False
+        a.cond_nf = a.cond_nf + ((tv, True),)
+        b.cond_nf = b.cond_nf + ((tv, False),)
         return self.exec_block(st.body, [a], ctx) + self.exec_block(st.orelse, [b], ctx)
 
     def st_With(self, st, s, ctx):
@@ -523,7 +528,7 @@ class Interp(object):
         live = [o for o in outs if o.ret is NORET]
         rets = [o for o in outs if o.ret is not NORET and o.ret is not RAISE]
         for o in live:
-            self.loop_log.append((fq, st.lineno, tv, it, o.env, o.conds))
+            self.loop_log.append((fq, st.lineno, tv, it, o.env, o.conds, o.cond_nf))
         # state after the loop
         after = s
         for n in carried:
@@ -1001,7 +1006,8 @@ class Interp(object):
                     kwargs.update(v)
             else:
                 kwargs[k.arg] = self.ev(k.value, env, ctx)
-        self.call_log.append((ctx.finfo.fq, norm_text(e.func), args, kwargs, e.lineno))
+        self.call_log.append((ctx.finfo.fq, norm_text(e.func), args, kwargs, e.lineno,
+                              getattr(getattr(ctx, "state_now", None), "cond_nf", ())))
         if isinstance(f, FuncRef):
             return self.call_repo(f.finfo, args, kwargs, ctx, call_node=e, env=env)
         if isinstance(f, BoundMethod):
